@@ -425,6 +425,12 @@ def check_alter(ctx):
                     brk = [b for b in A.walk_local(l) if isinstance(b, ast.Break)]
                     okscan = len(assigns) == 1 and A.src(assigns[0].value) == A.src(l.target) and bool(brk) \
                         and any("cache_exists()" in A.src(i.test) for i in A.walk_local(l) if isinstance(i, ast.If))
+            if not okscan and not any("range(len(%s))" % seqn in A.src(l.iter).replace(" ", "") for l in loops):
+                # no index scan by a loop at all: the index is found in another way (a generator expression, a helper) that
+                # this rule does not read -- undecided, not a violation
+                ctx.unknown("C18-d", fn, "alter_sequence finds the index of the filled Cache without the reversed index loop: the rule cannot "
+                            "tell whether it is the last filled one")
+                continue
             ctx.check("C18-d", okscan, fn, "alter_sequence does not pick the last filled Cache (reversed scan, first hit with "
                       "cache_exists(), break)", detail="last filled cache is chosen", construct="scan")
         else:
